@@ -309,6 +309,12 @@ pub struct Simk {
     pub pattern_salt: u8,
     /// Fail the next `enter` with this errno (after submitting).
     pub enter_fault: Option<i32>,
+    /// How often the sq-thread may go idle.
+    pub idle_budget: u32,
+    /// Zero-copy sends that fail (or are cancelled) still post a notification:
+    /// the failing CQE carries F_MORE (as Linux 6.x does once the notification
+    /// was allocated). false: a single CQE without F_MORE.
+    pub zc_error_notif: bool,
 }
 
 static SIMK: Mutex<Option<Simk>> = Mutex::new(None);
@@ -383,8 +389,16 @@ pub fn reset(plan: SetupPlan) {
             sqe_expect: HashMap::new(),
             pattern_salt: 0,
             enter_fault: None,
+            idle_budget: 1,
+            zc_error_notif: true,
         });
     })
+}
+
+static LAST_LOG: Mutex<Vec<String>> = Mutex::new(Vec::new());
+
+pub fn take_last_log() -> Vec<String> {
+    std::mem::take(&mut *LAST_LOG.lock().unwrap())
 }
 
 /// End of execution: release everything simk holds.
@@ -392,6 +406,9 @@ pub fn shutdown() {
     talloc::untracked(|| {
         let mut g = lock();
         if let Some(old) = g.take() {
+            if std::env::var_os("A10MC_DUMP").is_some() {
+                *LAST_LOG.lock().unwrap() = old.log.iter().map(|e| format!("{e:?}")).collect();
+            }
             old.teardown();
         }
     })
@@ -843,6 +860,17 @@ impl Simk {
         }
     }
 
+    /// Condition a blocked `enter(GETEVENTS)` waits for.
+    pub fn enter_wait_ready(&mut self, ring: usize, min_complete: u32) -> bool {
+        if ring >= self.rings.len() || self.rings[ring].closed {
+            return true;
+        }
+        self.run_deferred(ring);
+        self.flush_overflow(ring);
+        let r = &self.rings[ring];
+        r.cq_ready() >= min_complete.min(r.cq_entries)
+    }
+
     fn run_deferred(&mut self, ring: usize) {
         while let Some(cqe) = self.rings[ring].deferred.pop_front() {
             self.post_now(ring, cqe, None);
@@ -1125,6 +1153,17 @@ impl Simk {
         self.post(ring, Cqe { user_data, res, flags }, Some(serial));
     }
 
+    /// Fail request `serial` with `res` (< 0). Zero-copy sends may still owe a notification.
+    fn fail(&mut self, serial: u32, res: i32) {
+        let zc = self.req(serial).zc;
+        if zc && self.zc_error_notif {
+            self.req_mut(serial).awaiting_notif = true;
+            self.finish(serial, res, CQE_F_MORE);
+        } else {
+            self.finish(serial, res, 0);
+        }
+    }
+
     fn do_cancel(&mut self, ring: usize, serial: u32, sqe: &Sqe) {
         let target_ud = sqe.addr();
         let cancel_flags = sqe.op_flags();
@@ -1144,7 +1183,7 @@ impl Simk {
                 if mode == CancelMode::Lose || awaiting {
                     -libc::EALREADY
                 } else {
-                    self.finish(t, -libc::ECANCELED, 0);
+                    self.fail(t, -libc::ECANCELED);
                     0
                 }
             }
@@ -1313,7 +1352,11 @@ impl Simk {
             if e < 0 {
                 // Errors touch no memory (but the kernel may have read inputs).
                 self.check_foot(serial, false);
-                self.finish(serial, e, more_flag);
+                if req.zc {
+                    self.fail(serial, e);
+                } else {
+                    self.finish(serial, e, more_flag);
+                }
                 return;
             }
         }
@@ -1645,7 +1688,12 @@ impl Simk {
                         .map(|r| r.serial)
                         .collect();
                     for t in targets {
-                        self.finish(t, -libc::ECANCELED, 0);
+                        self.fail(t, -libc::ECANCELED);
+                        if self.req(t).awaiting_notif {
+                            // Nothing was sent: the notification follows at once.
+                            self.req_mut(t).awaiting_notif = false;
+                            self.finish(t, 0, CQE_F_NOTIF);
+                        }
                     }
                     0
                 }
